@@ -349,6 +349,14 @@ class Report:
                 self.add_broken("extracted evaluator vs coqc", b)
         wall = time.time() - self.t0
         replay_dir = os.path.join(VERIF, "replay", self.pid)
+        # replay files of an earlier run with the same seed and tier are stale once this run has its own verdict
+        if os.path.isdir(replay_dir):
+            for old in os.listdir(replay_dir):
+                if old.startswith("%d-%s-" % (self.seed, self.tier)):
+                    try:
+                        os.remove(os.path.join(replay_dir, old))
+                    except OSError:
+                        pass
         lines = []
         rc = 0
         nviol = 0
